@@ -42,6 +42,7 @@ type vConn struct {
 	closes     int
 	lastWrite  []byte
 	failWrites bool
+	writeErr   error // error returned by failing writes (default vConnErr)
 	failReads  bool
 	inbound    [][]byte // packets Read returns before it fails / blocks
 	readDL     int
@@ -68,6 +69,9 @@ func (c *vConn) Write(b []byte) (int, error) {
 	c.writes++
 	c.lastWrite = append([]byte{}, b...)
 	if c.failWrites {
+		if c.writeErr != nil {
+			return 0, c.writeErr
+		}
 		return 0, vConnErr{}
 	}
 	return len(b), nil
